@@ -37,6 +37,7 @@ type verifFetch struct {
 	Url    string `json:"url"`
 	Kind   string `json:"kind"`
 	Budget uint   `json:"budget"`
+	Frag   string `json:"frag"`
 }
 
 type verifSessionIn struct {
@@ -86,7 +87,16 @@ func verifRunSession(out *verifkit.Trace, rng *rand.Rand, sid int, s verifSessio
 	verifSetCache(s.Cap)
 	out.Emit(verifkit.M{"ev": "reset", "sid": sid, "world": verifWorldJSON(s.World), "cap": s.Cap})
 	for _, f := range s.Fetches {
-		link, err := url.Parse(w.URL(f.Url))
+		/* a fragment on the address asked for, some of the time (it is never sent; what is reported back must not
+		   carry one that is not its own) */
+		if f.Frag == "" && rng.Intn(4) == 0 {
+			f.Frag = fmt.Sprintf("f%d", rng.Intn(3))
+		}
+		address := w.URL(f.Url)
+		if f.Frag != "" {
+			address += "#" + f.Frag
+		}
+		link, err := url.Parse(address)
 		if err != nil {
 			panic(err)
 		}
@@ -108,6 +118,10 @@ func verifRunSession(out *verifkit.Trace, rng *rand.Rand, sid int, s verifSessio
 			reqs = append(reqs, w.ConnID(c))
 		}
 		res := verifkit.M{"ok": false, "doc": "none", "src": "none"}
+		srcfrag := ""
+		if !panicked && ferr == nil && source != nil {
+			srcfrag = source.Fragment
+		}
 		if !panicked && ferr == nil {
 			tag, _ := item["tag"].(string)
 			if item == nil {
@@ -115,7 +129,7 @@ func verifRunSession(out *verifkit.Trace, rng *rand.Rand, sid int, s verifSessio
 			}
 			res = verifkit.M{"ok": true, "doc": tag, "src": w.ID(source)}
 		}
-		ev := verifkit.M{"ev": "fetch", "url": f.Url, "kind": f.Kind, "budget": f.Budget, "res": res, "reqs": reqs,
+		ev := verifkit.M{"ev": "fetch", "url": f.Url, "kind": f.Kind, "budget": f.Budget, "frag": f.Frag, "srcfrag": srcfrag, "res": res, "reqs": reqs,
 			"plain": plain, "panic": panicked, "ms": time.Since(start).Milliseconds()}
 		if ferr != nil {
 			ev["err"] = verifkit.Clip(ferr.Error(), 120)
@@ -161,12 +175,18 @@ func verifRandomSession(rng *rand.Rand, long bool) verifSessionIn {
 			r = verifsim.Resp{Status: []int{204, 400, 404, 410, 500, 503}[rng.Intn(6)], Ct: []string{"activity"}, Body: "obj"}
 		case x == 14:
 			r = verifsim.Resp{Status: 200, Ct: []string{[]string{"html", "bad", "wild"}[rng.Intn(3)]}, Body: "obj"}
+		case x == 15 && rng.Intn(2) == 0:
+			/* a foreign type declared next to a tolerated one, in either order */
+			r = verifsim.Resp{Status: 200, Ct: [][]string{{"html", "json"}, {"activity", "html"}, {"bad", "activity"}, {"json", "wild"}}[rng.Intn(4)], Body: "obj"}
 		case x == 15:
 			r = verifsim.Resp{Status: 200, Ct: []string{}, Body: "obj"}
 		case x == 16:
 			r = verifsim.Resp{Status: 200, Ct: []string{"activity"}, Body: []string{"array", "scalar", "garbage", "empty"}[rng.Intn(4)]}
 		case x == 17:
 			r = verifsim.Resp{Status: 0, Ct: []string{"activity"}, Body: "obj"}
+		case x == 18 && rng.Intn(2) == 0:
+			/* no Location header; the body has a line that looks like one and points at a document of this world */
+			r = verifsim.Resp{Status: 302, Body: "locline", Twin: ids[rng.Intn(n)]}
 		case x == 18:
 			r = verifsim.Resp{Status: 302, Body: "empty"}
 		default:
